@@ -93,6 +93,10 @@ def compare(ctx, tag, base, other, field_map, shift, sign, wit, pair):
                   key=f"C09:{tag}:{nm}")
         if dev.size:
             ctx.ratio(f"C09.{tag}:{mon}", float(dev.max()), 1e-4)
+    compare_inversion(ctx, tag, base, other, shift, sign, wit)
+
+
+def compare_inversion(ctx, tag, base, other, shift, sign, wit):
     if "invit_u10" in base and "invit_u10" in other:
         a, b_ = base["invit_u10"], other["invit_u10"]
         same_nan = np.array_equal(np.isnan(a), np.isnan(b_))
@@ -156,6 +160,25 @@ def judge(ctx, c):
                             key="C09:exception")
         if ok:
             compare(ctx, "rot", b0, other, lambda a: np.roll(a, k, axis=-1) if a.ndim == 3 else a, k * step, 1.0, wit, pair)
+    if with_inv:
+        # the inversion (with and without direction iteration) under EVERY rotation: the place where the seam falls
+        # relative to the dissipation and stress directions differs from rotation to rotation
+        from ocean_science_utilities.wavephysics.windestimate import estimate_u10_from_source_terms
+        for k in range(1, nd):
+            if k in inv_ks:
+                continue
+            sk = wl.build(c, np.roll(E, k, axis=-1))
+            wit = lambda: {"gen": c, "k": k, "inversion_only": True}  # noqa
+            ok, pair_ = guarded(ctx, "C09.no-exception",
+                                lambda: (estimate_u10_from_source_terms(sk, b),
+                                         estimate_u10_from_source_terms(sk, b, direction_iteration=True)), wit,
+                                key="C09:exception")
+            if not ok:
+                continue
+            other = {"inv_u10": np.asarray(pair_[0]["u10"].values, float), "inv_dir": np.asarray(pair_[0]["direction"].values, float),
+                     "invit_u10": np.asarray(pair_[1]["u10"].values, float), "invit_dir": np.asarray(pair_[1]["direction"].values, float)}
+            ctx.count("C09.inversion_rotations")
+            compare_inversion(ctx, "rot", base, other, k * step, 1.0, wit)
     idx = (-np.arange(nd)) % nd
     ctx.case((c["kind"], nd, pair, "mirror"), nontrivial=True)
     wit = lambda: {"gen": c, "mirror": True}  # noqa
@@ -171,10 +194,10 @@ def judge(ctx, c):
 def make(rng, i, allk):
     pair = ["st4/st4", "st4/st6", "st4/st4"][i % 3]
     nd = [16, 24, 36][(i // 3) % 3] if i < 9 else int(rng.choice([16, 24, 36]))
-    c = wl.make_case(rng, kind=str(rng.choice(["windsea", "windsea", "mixed", "random"])), nd=nd,
+    c = wl.make_case(rng, kind=str(rng.choice(["windsea", "veering", "veering", "mixed", "random"])), nd=nd,
                      npoints=int(rng.integers(1, 4)))
     c.update({"pair": pair, "gen_params": None, "dis_params": None, "ks": [int(k) for k in rng.integers(1, nd, 3)],
-              "allk": allk, "inversion": bool(c["kind"] in ("windsea", "mixed") and i % 2 == 0)})
+              "allk": allk, "inversion": bool(c["kind"] in ("windsea", "mixed", "veering") and i % 2 == 0)})
     return c
 
 
